@@ -28,6 +28,21 @@ func (c *Ctx) valueDesc(v ssa.Value) string {
 	if i, ok := ir.ConstInt(v); ok {
 		return fmt.Sprintf("%d", i)
 	}
+	if call, ok := v.(*ssa.Call); ok {
+		if b := ir.BuiltinName(call); b == "len" || b == "cap" {
+			return b + "(" + c.valueDesc(call.Call.Args[0]) + ")"
+		}
+		// calls into code that is not looked through: name the callee and arguments
+		if f := call.Call.StaticCallee(); f != nil && !c.U.Transparent(f) && c.descDepth < 3 {
+			c.descDepth++
+			var args []string
+			for _, a := range call.Call.Args {
+				args = append(args, c.valueDesc(a))
+			}
+			c.descDepth--
+			return f.String() + "(" + strings.Join(args, ",") + ")"
+		}
+	}
 	ps := ir.PathStrings(c.U.PathsOf(v))
 	if len(ps) == 0 {
 		return "?"
@@ -84,6 +99,15 @@ func (c *Ctx) condDesc(iff *ssa.If, succ int, loops []*ir.Loop) string {
 				op = token.GEQ
 			case token.GEQ:
 				op = token.LEQ
+			}
+		}
+		// comparisons with the empty string are emptiness tests
+		if sv, ok := ir.ConstString(y); ok && sv == "" {
+			if op == token.EQL {
+				return "empty(" + c.valueDesc(x) + ")"
+			}
+			if op == token.NEQ {
+				return "nonempty(" + c.valueDesc(x) + ")"
 			}
 		}
 		// normalise unsigned/positive idioms: x >= 1  ==  x > 0 ; x != 0 stays
